@@ -16,8 +16,7 @@ def roundtrip_job(job):
     from zorg.domain.models import Note, TodoPayload
     from zorg.domain.types import NoteType
     n1 = r1["notes"][0]
-    tp = TodoPayload(priority=n1["todo"][0], status=NoteType(n1["todo"][1])) if n1["todo"] else None
-    text = Note(n1["body"], Path("p.zo"), n1["line"], todo_payload=tp).to_string()
+    text = r1["texts"][0]          # Note.to_string of the Note object the compiler built (all fields as compiled)
     page2 = "# h\n\n" + text
     r2 = fc.compile_text(page2, dt.date(*today), False)
     return {"skip": False, "n1": n1, "text": text, "r2": {k: r2[k] for k in ("status", "nerrors", "has_errors", "notes")}}
@@ -35,15 +34,13 @@ def page_job(job):
     r1 = fc.compile_text(text, dt.date(*today), False)
     if r1["status"] != "ok" or r1["nerrors"]:
         return {"skip": True}
-    notes = list(r1["notes"])
+    pairs = list(zip(r1["notes"], r1["texts"]))
     if order == "rev":
-        notes.reverse()
+        pairs.reverse()
     elif order == "alpha":
-        notes.sort(key=lambda n: n["body"])
-    strs = []
-    for n in notes:
-        tp = TodoPayload(priority=n["todo"][0], status=NoteType(n["todo"][1])) if n["todo"] else None
-        strs.append(Note(n["body"], Path("p.zo"), n["line"], todo_payload=tp).to_string().rstrip())
+        pairs.sort(key=lambda p: p[0]["body"])
+    notes = [p[0] for p in pairs]
+    strs = [p[1].rstrip() for p in pairs]
     page2 = "# SAVED QUERY\n\n" + "\n".join(strs) + "\n"
     r2 = fc.compile_text(page2, dt.date(*today), False)
     return {"skip": False, "notes": notes, "page2": page2, "r2": {k: r2[k] for k in ("status", "nerrors", "has_errors", "notes")}}
